@@ -23,14 +23,15 @@ inductive Stmt where
                              -- `enter`/`withOf` (logs its end message), or end of a `with a.context():` block
   | create (o : Nat)         -- a = start_action(...) without entering it (logs the start message); the Action
                              -- object becomes available to every unit under the handle `o`
-  | withOf (h : Nat)         -- `with action_h:` on an action created (by any unit) and not entered so far;
-                             -- blocks until `h` has been created
+  | withOf (h : Nat)         -- `with action_h:` on an action created (by any unit); waits until `h` has been created;
+                             -- disabled (out of domain) while `h` is inside a `with` block of any unit, or finished
   | ctxOf (h : Nat)          -- `with action_h.context():` on an action created by any unit; blocks until created
   | log (o : Nat)            -- log_message(...)
   | remote (o : Nat)         -- first statement of a thread whose function went through `preserve_context`: the call of
                              -- the wrapper, `with Action.continue_task(task_id)`: a child action `o` of the action that
-                             -- was current where the wrapper was made (logs its start message); nothing if there was
-                             -- none.  Closed by `exit`; what `exit` restores is the thread's own (empty) context.
+                             -- was current where the wrapper was made (logs its start message).  Closed by `exit`; what
+                             -- `exit` restores is the thread's own (empty) context, so the statement is only meaningful
+                             -- as the first one of a unit started with the creator's action (`spawnTask`).
   | spawnThread (v : Nat)    -- threading.Thread(target=unit v).start()
   | spawnTask (v : Nat)      -- asyncio.ensure_future(unit v); also: Thread(target=preserve_context(unit v)).start() — the
                              -- action current HERE is what unit v's `remote` statement continues
@@ -80,6 +81,15 @@ def UState.done (x : UState) : Bool := x.started && x.code.isEmpty
 /-- has the action with handle `h` been created (its start message logged)? -/
 def created (log : List Rec) (h : Nat) : Bool := log.any (fun r => r.occ == h && r.kind == .start)
 
+/-- has the action `h` been finished (its end message logged)? -/
+def finished (log : List Rec) (h : Nat) : Bool := log.any (fun r => r.occ == h && r.kind == .end_)
+
+/-- is the action `h` entered right now (`enter` / `withOf` block not yet left) by some unit?  eliot keeps the
+reset token of `with action:` ON the Action object (`_parent_token`), so an Action can be inside at most one
+such block at a time; `with a.context():` blocks keep their token in a local variable and are unrestricted. -/
+def entered (p : Prog) (s : State) (h : Nat) : Bool :=
+  (List.range p.n).any (fun w => (s.units w).toks.any (fun t => t.1 == h && t.2.2))
+
 /-- One primitive step of unit `u`; `none` = disabled (not started, finished, blocked in `join` or waiting
 for an action handle, or out of domain: spawning a unit that is not a fresh, higher-numbered unit of the program). -/
 def step (p : Prog) (s : State) (u : Nat) : Option State :=
@@ -98,9 +108,10 @@ def step (p : Prog) (s : State) (u : Nat) : Option State :=
   | .remote o :: r =>
     match x.ctx with
     | some a => some ((s.emit ⟨u, o, .start, some a⟩).setUnit u { x with code := r, ctx := some o, toks := (o, none, true) :: x.toks })
-    | none => some (s.setUnit u { x with code := r, toks := (o, none, false) :: x.toks })
+    | none => none     -- out of domain: with no action current where the wrapper was made, preserve_context returns the
+                       -- function itself and the thread is a plain `spawnThread` unit without a `remote` statement
   | .withOf h :: r =>
-    if created s.log h then some (s.setUnit u { x with code := r, ctx := some h, toks := (h, x.ctx, true) :: x.toks }) else none
+    if created s.log h && !(entered p s h) && !(finished s.log h) then some (s.setUnit u { x with code := r, ctx := some h, toks := (h, x.ctx, true) :: x.toks }) else none
   | .ctxOf h :: r =>
     if created s.log h then some (s.setUnit u { x with code := r, ctx := some h, toks := (h, x.ctx, false) :: x.toks }) else none
   | .log o :: r => some ((s.emit ⟨u, o, .msg, x.ctx⟩).setUnit u { x with code := r })
@@ -163,6 +174,30 @@ decreasing_by
   all_goals first
     | (apply Prod.Lex.right; simp)
     | (apply Prod.Lex.left; omega)
+
+/-- the occurrence keys a unit's own statements emit, in program order (what the units it spawns emit is not
+included); `blocks` = the unit's open blocks, innermost first: action and whether leaving the block finishes it -/
+def ownKeys : List (Nat × Bool) → List Stmt → List (Nat × Kind)
+  | _, [] => []
+  | bs, .enter o :: r => (o, .start) :: ownKeys ((o, true) :: bs) r
+  | [], .exit :: r => ownKeys [] r
+  | (o, true) :: bs, .exit :: r => (o, .end_) :: ownKeys bs r
+  | (_, false) :: bs, .exit :: r => ownKeys bs r
+  | bs, .log o :: r => (o, .msg) :: ownKeys bs r
+  | bs, .create o :: r => (o, .start) :: ownKeys bs r
+  | bs, .remote o :: r => (o, .start) :: ownKeys ((o, true) :: bs) r
+  | bs, .withOf h :: r => ownKeys ((h, true) :: bs) r
+  | bs, .ctxOf h :: r => ownKeys ((h, false) :: bs) r
+  | bs, .spawnThread _ :: r => ownKeys bs r
+  | bs, .spawnTask _ :: r => ownKeys bs r
+  | bs, .join _ :: r => ownKeys bs r
+
+/-- the keys unit `u` has logged so far, oldest first -/
+def unitKeys (log : List Rec) (u : Nat) : List (Nat × Kind) :=
+  ((log.reverse).filter (fun r => r.unit == u)).map Rec.key
+
+/-- the records unit `u` has logged so far, oldest first -/
+def unitLog (log : List Rec) (u : Nat) : List Rec := (log.reverse).filter (fun r => r.unit == u)
 
 /-- records of the sequential reference run of the whole program -/
 def seqLog (p : Prog) : List Rec := denCode p 0 none [] (p.code 0)
